@@ -76,7 +76,7 @@ def mutate(rng, tree):
     if n[0] == "t":
         kinds += ["rename", "renamespace", "attr-add", "child-add"]
         if n[3]:
-            kinds += ["attr-remove", "attr-change", "attr-rename"]
+            kinds += ["attr-remove", "attr-change", "attr-rename", "attr-renamespace", "attr-renamespace"]
         if len(n[4]) >= 2:
             kinds += ["swap"]
         if n[4]:
@@ -100,6 +100,16 @@ def mutate(rng, tree):
     elif k == "attr-rename":
         a = rng.choice(n[3])
         a[1] = a[1] + "q"
+    elif k == "attr-renamespace":
+        # same local name and value, another namespace: between the element's namespace and none (under a default
+        # namespace the two are one attribute, under a prefix they are two - seeded C17-8), or into a foreign one
+        a = rng.choice(n[3])
+        if a[0] == trees.XML_NS:
+            return None, k
+        new_ns = rng.choice([n[1], "", "urn:other"]) if a[0] not in (n[1], "") else (n[1] if a[0] == "" else "")
+        if new_ns == a[0] or any(o is not a and o[1] == a[1] and o[0] == new_ns for o in n[3]):
+            return None, k
+        a[0] = new_ns
     elif k == "child-add":
         new = rng.choice([["x", "new"], ["c", "new"], ["p", "new", "d"], ["t", "", "new", [], []]])
         i = rng.randint(0, len(n[4]))
